@@ -328,9 +328,21 @@ na('C08', 'subject is floating-point conditioning up to 1e16 and an eigh-based a
           'LAPACK eigen-solvers are outside the encodable fragment (DESIGN 5)')
 na('C09', 'compares two different concrete crystals through the numerical Green function; no symbolic input remains (DESIGN 5)')
 na('C10', 'numerical inverse Fourier transform + special functions; an accuracy statement, not an algebraic identity (DESIGN 5)')
-na('C19', 'inputs are integer supercell matrices and atom lists whose length depends on them; reduce/minlattice are data-dependent '
-          'recursive searches: making the matrix symbolic degenerates to enumeration of concrete crystals (DESIGN 5)')
-na('C27', 'concrete supercells and occupations only; equivalence search is a finite enumeration (DESIGN 5)')
+claim('C19',
+      'Bounded symbolic verification: primitive crystals, integer supercell matrices (|det| 2..6) and atom orderings are enumerated; the '
+      'NUMERICAL NOISE on every coordinate of every atom of the supercell description is symbolic (one solver real each, |noise| <= '
+      'threshold/16). The real Crystal constructor (reduce, minlattice, center, gengroup, ...) runs on those terms: every tolerance '
+      'comparison is decided by z3 for all noise values (a comparison that noise can tip forks the path), roundings are replaced by '
+      'their value when two queries show the path condition pins it. Per path: atoms per species, volume per atom, right-handed lattice '
+      'meeting the documented reduction criteria, group order of the primitive description, lattice equal to and atom differences within '
+      'a multiple of the noise of the noise-free result (up to origin / inversion of the setting).',
+      'The supercell matrix and the ordering stay enumerated (making them symbolic degenerates to enumeration); what is universally '
+      'quantified is the noise. Real-number model of the float arithmetic; counterexamples are replayed in floats and count only if they '
+      'reproduce (soft). One defect found and fixed (reduce() raised ArithmeticError for orderings whose first translation is 2/3, 2/5 ...).',
+      'DESIGN.md 3/C19')
+na('C27', 'concrete supercells and occupations only: equivalencemap reads EVERY occupation through defectindices (dictionary keys built from the '
+          'species), so every path of a symbolic run fixes all occupations and the exploration degenerates to the enumeration of occupation '
+          'pairs, which this family excludes; the operations as permutations are finite concrete data (DESIGN 5)')
 na('C29', 'as C27: concrete crystal, network and supercell size; outputs are finite dictionaries of supercells (DESIGN 5)')
 na('C30', 'tar/JSON/Makefile text, package-resource loading and an external perl script: string formatting and I/O are the subject; '
           'onsager.automator does not even import here (pkg_resources missing) (DESIGN 5)')
